@@ -127,6 +127,40 @@ def random_sig(r, max_named=6):
   return sig
 
 
+def rekind_sig(r, sig):
+  """A signature over the SAME parameter names under other kinds (a name that was keyword-capable
+  may become positional-only, keyword-only, or the name of *args / **kwargs): what
+  `update_callable` meets when a function's signature evolves."""
+  names = [p[0] for p in sig if p[1] in ('po', 'pk', 'ko')]
+  if not names:
+    return random_sig(r, max_named=5)
+  r.shuffle(names)
+  i = r.randint(0, len(names))
+  j = r.randint(i, len(names))
+  first_default = r.randint(0, j)
+  out = []
+  for n, name in enumerate(names[:i]):
+    out.append([name, 'po', n >= first_default])
+  for n, name in enumerate(names[i:j]):
+    out.append([name, 'pk', i + n >= first_default])
+  rest = names[j:]
+  x = r.random()
+  if rest and x < 0.35:
+    out.append([rest.pop(0), 'vp', False])
+  elif x < 0.7:
+    out.append(['args', 'vp', False])
+  vk = None
+  if rest and r.random() < 0.3:
+    vk = rest.pop()
+  for name in rest:
+    out.append([name, 'ko', r.random() < 0.5])
+  if vk:
+    out.append([vk, 'vk', False])
+  elif r.random() < 0.4:
+    out.append(['kw', 'vk', False])
+  return out
+
+
 class Fresh:
   def __init__(self, start=1):
     self.c = itertools.count(start)
@@ -514,7 +548,7 @@ def gen_tag_ops(r, sig, fresh, n_ops):
       ops.append([r.choice(['assign', 'copy_with']), kvs])
     elif x < 0.975:
       # switch to a callable with another signature (keeps, drops or rejects stored arguments)
-      new_sig = random_sig(r, max_named=5)
+      new_sig = random_sig(r, max_named=5) if r.random() < 0.6 else rekind_sig(r, sig)
       ops.append(['update_callable', new_sig, r.random() < 0.6])
       sig = new_sig
       named = [p[0] for p in sig]
